@@ -48,6 +48,7 @@ type ppuModel struct {
 	enterFn  map[*ssa.Function]string // EnterMode2 / ExitMode2 by effect on corrupt
 	steps    map[ppuState]*ppuStep
 	scan     []scanFact
+	symLY    bool // evaluate steps with the published LY symbolic (not cached)
 }
 
 var ppuModelCache = map[*Ctx]*ppuModel{}
@@ -216,13 +217,15 @@ func (c *Ctx) ppuModel() *ppuModel {
 
 // step evaluates one machine-cycle step from a fixed timing state with everything else symbolic.
 func (m *ppuModel) step(s ppuState) *ppuStep {
-	if r, ok := m.steps[s]; ok {
+	if r, ok := m.steps[s]; ok && !m.symLY {
 		return r
 	}
 	c := m.c
 	it := c.W.It
 	res := &ppuStep{From: s}
-	m.steps[s] = res
+	if !m.symLY {
+		m.steps[s] = res
+	}
 	st := it.StateOn(c.W.Generic)
 	setI := func(path string, v int64) {
 		w, sg := ai.TypeShape(ai.LeafTypeAt(m.PPU.T, path))
@@ -231,6 +234,9 @@ func (m *ppuModel) step(s ppuState) *ppuStep {
 	setI(".ticks", s.T)
 	setI(".mode", s.Mode)
 	setI(".ly", s.LY)
+	if m.symLY {
+		c.symCell(st, m.PPU, ".ly") // the published line number is whatever a write to the read-only LY register left there
+	}
 	st.SetCell(m.PPU, ".firstLine", ai.NewConstBool(s.FirstLine))
 	st.SetCell(m.PPU, m.Enabled, ai.NewConstBool(true))
 	st.SetCell(m.OAM, ".corrupt", ai.NewConstBool(s.Mode == 2))
